@@ -230,6 +230,9 @@ func (b *Body) instr(in ssa.Instruction, blk *ssa.BasicBlock, reach *T, st State
 			ri.results = append(ri.results, b.val(r))
 		}
 		b.rets = append(b.rets, ri)
+		if ft.con != nil && len(ft.con.Boundary) > 0 && b == ft.top {
+			b.boundary("return", reach, st, x.Pos())
+		}
 	case *ssa.Panic:
 		if ft.con == nil || !ft.con.MayPanic {
 			b.safety("panic", reach, tFalse, x.Pos(), "explicit panic unreachable")
